@@ -8,14 +8,14 @@ from checks import ddcommon
 
 META = {
     "title": "operations issued concurrently return the sequential handles; diagram stays well-formed with exact counts; the apply cache never serves a dangling weak edge",
-    "technique": "Rocq proof over a Gallina interleaving model of the concurrent unique table and reference counts (atomic actions get_or_insert / retain / release / move / collect-one-node of any number of threads; invariant = well-formed + per-level unique + exact counts, preserved by every action under every schedule; canonicity hence the same handle as a sequential run; collector removes only unowned, unreferenced nodes), extended by the apply cache (buckets with a lock bit and one entry of WEAK operand/value edges; try_lock / set / get+clone / unlock of the workers, pre_gc bucket by bucket / sweep / post_gc of the collector that runs under the shared lock): no dangling weak edge in any reachable state, a hit yields the memoised function, and the two broken protocol variants (empty buckets not kept locked; a lock() two parties can acquire) are refuted by computed witnesses; tie to the code: trace validation on BOTH manager implementations (index-based: crates/oxidd-manager-index; pointer-based: crates/oxidd-manager-pointer, own unique table / gc code, node ids = addresses) - the cfg(oxidd_verif) hooks of /repo log every get_or_insert, every collected node and every apply cache event (insertion, hit, per-bucket pre_gc lock and post_gc unlock, each reported with the bucket locked) inside parallel blocks run by several OS threads with seeded schedule perturbation, the log is replayed by the extracted step functions of the model and the manager's table after the block must equal the model's; results are compared with the sequential specification",
+    "technique": "Rocq proof over a Gallina interleaving model of the concurrent unique table and reference counts (atomic actions get_or_insert / retain / release / move / collect-one-node of any number of threads; invariant = well-formed + per-level unique + exact counts, preserved by every action under every schedule; canonicity hence the same handle as a sequential run; collector removes only unowned, unreferenced nodes), extended by the apply cache (buckets with a lock bit and one entry of WEAK operand/value edges; try_lock / set / get+clone / unlock of the workers, pre_gc bucket by bucket / sweep / post_gc of the collector that runs under the shared lock): no dangling weak edge in any reachable state, a hit yields the memoised function, and the two broken protocol variants (empty buckets not kept locked; a lock() two parties can acquire) are refuted by computed witnesses; tie to the code: trace validation on BOTH manager implementations (index-based: crates/oxidd-manager-index; pointer-based: crates/oxidd-manager-pointer, own unique table / gc code, node ids = addresses) - the cfg(oxidd_verif) hooks of /repo log every get_or_insert, every collected node and every apply cache event (insertion, hit, per-bucket pre_gc lock and post_gc unlock, each reported with the bucket locked) inside parallel blocks run by several OS threads with seeded schedule perturbation, the log is replayed by the extracted step functions of the model and the manager's table after the block must equal the model's; results are compared with the sequential specification; C07m: the same for MTBDD<I64> (the kind with a DYNAMIC terminal manager: terminals are hash-consed by value, reference counted and collected by terminal_manager.gc() inside Manager::gc) and TDD: interleaving model coq/Mgr/ConcTerm.v of the terminal table + counted-edge tokens + cache buckets holding weak terminal edges + collector phases, protocol 'terminals are collected only between pre_gc and post_gc' proved safe under every schedule and its violation refuted by a computed schedule; parallel blocks with operations whose results / operands are short-lived terminals next to a collecting thread, end-state audit of the terminal table by the extracted checker",
     "category": "proof",
     "design_ref": "DESIGN.md section 5, C07",
-    "level_text": "Theorems (coq/Props/C07.v) over coq/Mgr/Conc.v: every action of every thread preserves the invariant CInv (keys distinct, node preconditions, per-level uniqueness, owned edges valid, reported count = owner tokens + parent edges), hence every state reachable under ANY interleaving is a well-formed snapshot with exact reference counts to which the canonicity theorems of C01 apply (two threads that build the same function hold the same edge = the handle of a sequential run); a node with a positive count keeps its level and children under every action of other threads and of the collector; the collector can only remove nodes without owner and parent; the table-only projection used for replay is simulated by the full model. C07_cache_* over coq/Mgr/ConcCache.v (apply cache of weak edges + collector phases, the code's protocol): the invariant KInv (CInv + every operand/value edge of every cache entry points to a stored node or terminal + buckets held by the collector are empty, locked and free of workers + one worker per bucket + exact lock bits) is preserved by every action of every thread and of the collector under every schedule; a hit returns valid edges, the thread owns them, and every edge of the entry denotes what it denoted when the entry was written (memoised function); whenever the collector removes a node all buckets are empty and locked; REFUTED by computed schedules: pre_gc skipping empty buckets, and a lock() that ignores the swapped value, both reach a dangling entry in an unlocked bucket whose next hit breaks CInv. The log-level replay lstep accepts the projection of every behaviour of the model (C07_cache_log_sim / trace_sim) and whatever it accepts has no dangling entry (C07_cache_log_inv / clog_inv). Tie to the code on every run, on the index-based manager build (all cases) and on the pointer-based manager build (--features cfg-pointer; every third history, every second hammer / gcstorm / stress case, ids ptr-*; the model is manager-agnostic: same reference-count convention stored = reported + 1, collector removes iff the stored count is 1, same hook sites): histories with 2-4 OS threads (plus the manager's worker pool: *MT function types with 1/2/4 workers) executing apply / ite / quantification / clone / drop and collections under the shared lock concurrently on one manager (BDD, BCDD, ZBDD), with seeded random yields/spins injected at the hook sites (level lock, apply cache get/add, retain/release, collector); (1) the logged table events are replayed by the extracted model step: no duplicate insertion, no stale hit, no dangling or ill-formed node, no collection of a referenced node, final table identical; (1b) the logged apply cache events are replayed by the extracted lstep/clstep: no insertion or hit in a bucket between its pre_gc lock and post_gc unlock, no removal by the collector unless ALL buckets are locked, post_gc unlocks exactly what pre_gc locked, every hit names stored nodes only and equals the entry written last; (2) every result's value table is compared with the sequential specification and all handles are audited for canonicity (same function => same edge, also across threads), well-formedness and exact reference counts on the snapshot after each block (extracted checkers of C01/C03/C05).",
-    "level_note": "PARTIAL by nature: the theorem is about the model's atomic actions; that the hooked regions of /repo are atomic (correctness of parking_lot mutexes, the hand-written RwLock and the cache's spin lock, Release/Acquire ordering on reference counts, rayon) is assumed, not verified, and data races below the granularity of the hooks cannot be exhibited: a broken bucket lock is only seen when the race actually happens in a run (the gcstorm cases make the collector take 1-2 buckets a few thousand times per case while 3 threads hammer them). The explored interleavings are those the OS scheduler plus the seeded perturbation produce (a search, not an enumeration): a replay re-runs the same case and seed but the interleaving may differ. The cache model's operator is opaque: 'memoised function' = the denotations of operand and value edges are unchanged between insertion and hit (any relation between them that held at insertion holds at the hit); it is not instantiated with the CacheOK predicate of the apply proofs (C02). The log does not contain the operator and numeric operands of an entry nor the cache contents at the start of a block (entries written before are 'unknown': their hits are only checked for dangling edges). Deadlock freedom is covered by the watchdog (a hang is a violation) and by the lock-order lemma of the model only. Direct-mapped cache only. Pointer-based manager: the table events come from LevelViewSet::get_or_insert / LevelViewSet::gc / Manager::gc of that crate; Function::clone/drop and Edge::drop_inner report retain/release (perturbation sites only, not replayed); try_remove_node (reordering, exclusive lock) and the arcslab slot allocator are not hooked (the allocator is abstracted as 'the proposed slot is not in use', as for the index store). Trusted: Coq kernel, extraction, OCaml drivers, Rust harness, the hooks.",
+    "level_text": "Theorems (coq/Props/C07.v) over coq/Mgr/Conc.v: every action of every thread preserves the invariant CInv (keys distinct, node preconditions, per-level uniqueness, owned edges valid, reported count = owner tokens + parent edges), hence every state reachable under ANY interleaving is a well-formed snapshot with exact reference counts to which the canonicity theorems of C01 apply (two threads that build the same function hold the same edge = the handle of a sequential run); a node with a positive count keeps its level and children under every action of other threads and of the collector; the collector can only remove nodes without owner and parent; the table-only projection used for replay is simulated by the full model. C07_cache_* over coq/Mgr/ConcCache.v (apply cache of weak edges + collector phases, the code's protocol): the invariant KInv (CInv + every operand/value edge of every cache entry points to a stored node or terminal + buckets held by the collector are empty, locked and free of workers + one worker per bucket + exact lock bits) is preserved by every action of every thread and of the collector under every schedule; a hit returns valid edges, the thread owns them, and every edge of the entry denotes what it denoted when the entry was written (memoised function); whenever the collector removes a node all buckets are empty and locked; REFUTED by computed schedules: pre_gc skipping empty buckets, and a lock() that ignores the swapped value, both reach a dangling entry in an unlocked bucket whose next hit breaks CInv. The log-level replay lstep accepts the projection of every behaviour of the model (C07_cache_log_sim / trace_sim) and whatever it accepts has no dangling entry (C07_cache_log_inv / clog_inv). C07_term_* over coq/Mgr/ConcTerm.v (MTBDD: DynamicTerminalManager; state = terminal table keyed by value with counts + free chain + tokens of counted terminal edges held by threads / handles / stored nodes + cache buckets with the terminal ids of their weak operand and value edges + collector phase; actions get_terminal (find-or-insert by value), retain, drop, move, try_lock / add / lookup+clone / unlock, pre_gc bucket by bucket, per-terminal collection step, post_gc): the invariant XInv (ids and VALUES pairwise distinct, free chain disjoint, stored count = number of counted edges, every counted edge and every weak edge of every bucket names a stored terminal, buckets held by the collector are empty) is preserved by every action under every schedule from the empty manager (C07_term_step_inv / run_inv / reachable_inv / reachable_checks); a hit returns stored terminals with unchanged values, positive counts, owned by the thread (C07_term_hit_valid); the collector frees a terminal only in the sweep phase, with all buckets empty and locked and no counted edge to it (C07_term_gc_safe); a terminal named by a cache entry or owned by somebody keeps its value under every action (C07_term_value_stable), an entry that is neither overwritten nor cleared is hit with exactly the memoised terminals and values after any schedule (C07_term_entry_memo / hit_memo); REFUTED by a computed schedule: terminal collection after post_gc reaches a dangling weak edge in an unlocked bucket, the next hit hands out a freed slot resp. a terminal with another value (C07_term_refute_late_gc, _hit, _wrong_value; the schedule is impossible under the code\'s protocol). Tie to the code on every run, on the index-based manager build (all cases) and on the pointer-based manager build (--features cfg-pointer; every third history, every second hammer / gcstorm / stress case, ids ptr-*; the model is manager-agnostic: same reference-count convention stored = reported + 1, collector removes iff the stored count is 1, same hook sites): histories with 2-4 OS threads (plus the manager's worker pool: *MT function types with 1/2/4 workers) executing apply / ite / quantification / clone / drop and collections under the shared lock concurrently on one manager (BDD, BCDD, ZBDD), with seeded random yields/spins injected at the hook sites (level lock, apply cache get/add, retain/release, collector); (1) the logged table events are replayed by the extracted model step: no duplicate insertion, no stale hit, no dangling or ill-formed node, no collection of a referenced node, final table identical; (1b) the logged apply cache events are replayed by the extracted lstep/clstep: no insertion or hit in a bucket between its pre_gc lock and post_gc unlock, no removal by the collector unless ALL buckets are locked, post_gc unlocks exactly what pre_gc locked, every hit names stored nodes only and equals the entry written last; (2) every result's value table is compared with the sequential specification and all handles are audited for canonicity (same function => same edge, also across threads), well-formedness and exact reference counts on the snapshot after each block (extracted checkers of C01/C03/C05). C07m: MTBDD<I64> cases (index-based manager only; ids m*): 2-3 blocks of 3-4 threads recomputing ADD / SUB with a constant result (the cache entry's value edge is a terminal nobody else holds), operations with a just created and at once dropped constant operand (weak operand edge), short-lived constants (slot reuse), arithmetic on constants, ITE / RESTRICT / MIN / MAX / MUL / VAR, dropping three quarters of the results at once, while one thread runs collections for as long as they work, with seeded preemption of the collector inside pre_gc / post_gc (gcyield); kept results = pointwise I64 arithmetic of the operands' value tables (extracted Num/I64.v), snapshot after every block: wf, exact inner counts, canonicity, terminal table lifted by the extracted lift_terms and checked by tinv_b (no two slots with one value, no edge to a collected terminal), after gc exactly the referenced terminals remain and none after DROPALL; a crash / abort / hang of the harness in such a case is a violation. TDD cases (ids d*, both managers): churn blocks of three-valued operations next to a collecting thread, same replay and audits, results against the extracted three-valued tables (prop C11 of dd_main.ml).",
+    "level_note": "PARTIAL by nature: the theorem is about the model's atomic actions; that the hooked regions of /repo are atomic (correctness of parking_lot mutexes, the hand-written RwLock and the cache's spin lock, Release/Acquire ordering on reference counts, rayon) is assumed, not verified, and data races below the granularity of the hooks cannot be exhibited: a broken bucket lock is only seen when the race actually happens in a run (the gcstorm cases make the collector take 1-2 buckets a few thousand times per case while 3 threads hammer them). The explored interleavings are those the OS scheduler plus the seeded perturbation produce (a search, not an enumeration): a replay re-runs the same case and seed but the interleaving may differ. The cache model's operator is opaque: 'memoised function' = the denotations of operand and value edges are unchanged between insertion and hit (any relation between them that held at insertion holds at the hit); it is not instantiated with the CacheOK predicate of the apply proofs (C02). The log does not contain the operator and numeric operands of an entry nor the cache contents at the start of a block (entries written before are 'unknown': their hits are only checked for dangling edges). Deadlock freedom is covered by the watchdog (a hang is a violation) and by the lock-order lemma of the model only. Direct-mapped cache only. C07m: the terminal manager of /repo has no hooks (none were added): get_terminal / terminal release / the terminal collection are not in the event log, so xstep of coq/Mgr/ConcTerm.v is proof-only and the tie for the terminal protocol is the end-state audit (value tables of the results, terminal table via tinv_b on the lifted snapshot, surviving terminals after gc) plus crash detection; the implementation's terminal reference counts are not readable through the public API (the lifted counts are the prescribed ones; a wrong count shows as a terminal surviving gc or a dangling handle); the model abstracts stored inner nodes to holders of counted edges and collects terminals one entry per step (the code holds the terminal manager's mutex for the whole scan: fewer behaviours). MTBDD exists for the index-based manager only; F64 terminals are not in the parallel cases. Pointer-based manager: the table events come from LevelViewSet::get_or_insert / LevelViewSet::gc / Manager::gc of that crate; Function::clone/drop and Edge::drop_inner report retain/release (perturbation sites only, not replayed); try_remove_node (reordering, exclusive lock) and the arcslab slot allocator are not hooked (the allocator is abstracted as 'the proposed slot is not in use', as for the index store). Trusted: Coq kernel, extraction, OCaml drivers, Rust harness, the hooks.",
 }
 ALLOWED_AXIOMS = ()
-MODEL_VOS = ["Base/Conv.vo", "DD/Table.vo", "DD/TableExtra.vo", "Mgr/Conc.vo", "Mgr/ConcCache.vo"]
+MODEL_VOS = ["Base/Conv.vo", "DD/Table.vo", "DD/TableExtra.vo", "Mgr/Conc.vo", "Mgr/ConcCache.vo", "Mgr/ConcTerm.vo"]
 
 
 def build(ctx):
@@ -44,6 +44,8 @@ def pointer_sample(cases, thorough):
     seen = {}
     for h, ops in cases:
         fam = h[0]
+        if fam == "m":
+            continue    # MTBDD: there is no dynamic terminal manager for the pointer-based manager (crates/oxidd/src/mtbdd.rs)
         n = seen.get(fam, 0)
         seen[fam] = n + 1
         if n % (3 if fam == "p" else 2) == 0:
@@ -297,6 +299,180 @@ def gen_stress(cid, kind, rng, thorough):
     return (hdr, ops)
 
 
+def gen_mtbdd(cid, rng, thorough):
+    """C07m: MTBDD<I64> -- the only kind whose terminals are reference counted and collected
+    (`DynamicTerminalManager::gc` inside `Manager::gc`, between pre_gc and post_gc).  2-3 blocks; in each 3-4
+    threads recompute, over and over, operations whose result or operand is a terminal that nobody else refers to,
+    and drop most results at once, while one thread collects continuously:
+      (A) ADD f g / SUB f g' with f + g = f - g' = c pointwise: the apply cache entry's VALUE edge is the terminal c,
+      (B) CONSTN e v; <op> d f e; DROP e: the cache entry's OPERAND edge is the short-lived terminal v,
+      (C) short-lived constants (slot reuse), (D) arithmetic on two constants (fresh terminal, no cache),
+      (E) ITE / RESTRICT / MIN / MAX / VAR.
+    About a quarter of the results is kept until the snapshot after the block and compared with the sequential
+    specification (pointwise I64 arithmetic of the operands' value tables)."""
+    nv = rng.randrange(2, 5)
+    n = 1 << nv
+    ops = [f"VARS {nv}"]
+    for v in range(nv):
+        ops.append(f"VAR h{v} {v}")
+    nxt = nv
+    consts = []
+    for _ in range(rng.randrange(3, 6)):
+        ops.append(f"CONSTN h{nxt} {rng.choice([2, 3, 5, -4, 7, 10, -1])}")
+        consts.append(nxt); nxt += 1
+    pairs = []       # (op, f, g): op f g is the constant c
+    funs = []
+    cbase = rng.randrange(1000, 9000)
+    for i in range(rng.randrange(5, 10)):
+        c = cbase + 13 * i
+        vals = rng.sample(range(20000 + 40 * i, 20000 + 40 * i + 39), rng.randrange(2, min(n, 4) + 1))
+        f = [rng.choice(vals) for _ in range(n)]
+        f[0], f[-1] = vals[0], vals[1]          # not constant: an inner node, the operation goes through the cache
+        o = rng.choice(["ADD", "ADD", "SUB"])
+        g = [c - x for x in f] if o == "ADD" else [x - c for x in f]
+        ops.append(f"VT h{nxt} {nv} " + " ".join(map(str, f)))
+        ops.append(f"VT h{nxt + 1} {nv} " + " ".join(map(str, g)))
+        pairs.append((o, nxt, nxt + 1)); funs += [nxt, nxt + 1]; nxt += 2
+    base = 1000
+    ops.append("SNAP")
+    for blk in range(rng.randrange(2, 4)):
+        k = rng.randrange(3, 5)
+        collector = rng.random() < 0.85
+        workers = k - 1 if collector else k
+        lines = [[] for _ in range(k)]
+        kept = []
+        for t in range(workers):
+            rounds = rng.randrange(150, 600 if thorough else 320)
+            for rd in range(rounds):
+                keep = rng.random() * rounds < 14     # about 14 results per thread, spread over the block
+                r = rng.random()
+                d = base; base += 2
+                if r < 0.45:
+                    o, f, g = rng.choice(pairs)
+                    lines[t].append(f"{o} h{d} h{f} h{g}")
+                    mine = [d]
+                elif r < 0.75:
+                    # values recur within and across the threads: the same key is asked for again and again
+                    v = 1000000 + rng.randrange(24)
+                    lines[t].append(f"CONSTN h{d + 1} {v}")
+                    lines[t].append(f"{rng.choice(['ADD', 'ADD', 'MUL', 'SUB', 'MIN', 'MAX'])} h{d} h{rng.choice(funs)} h{d + 1}")
+                    mine = [d, d + 1]
+                elif r < 0.85:
+                    lines[t].append(f"CONSTN h{d} {2000000 + rng.randrange(40)}")
+                    mine = [d]
+                elif r < 0.92:
+                    a, b = rng.choice(consts), rng.choice(consts)
+                    lines[t].append(f"{rng.choice(['ADD', 'MUL', 'SUB', 'MIN', 'MAX'])} h{d} h{a} h{b}")
+                    mine = [d]
+                else:
+                    q = rng.random()
+                    if q < 0.4:
+                        lines[t].append(f"ITE h{d} h{rng.randrange(nv)} h{rng.choice(funs + consts)} h{rng.choice(funs + consts)}")
+                    elif q < 0.7:
+                        pos = rng.randrange(1 << nv)
+                        neg = rng.randrange(1 << nv) & ~pos
+                        lines[t].append(f"RESTRICT h{d} h{rng.choice(funs)} {pos} {neg}")
+                    elif q < 0.9:
+                        lines[t].append(f"{rng.choice(['MIN', 'MAX', 'MUL'])} h{d} h{rng.choice(funs)} h{rng.choice(funs)}")
+                    else:
+                        lines[t].append(f"VAR h{d} {rng.randrange(nv)}")
+                    mine = [d]
+                if keep:
+                    kept += mine
+                else:
+                    for x in reversed(mine):
+                        lines[t].append(f"DROP h{x}")
+        if collector:
+            lines[k - 1] = ["PGC 3000"]
+        ops.append(f"PAR {k}")
+        idx = [0] * k
+        remaining = sum(len(l) for l in lines)
+        while remaining:
+            t = rng.choice([i for i in range(k) if idx[i] < len(lines[i])])
+            ops.append(f"T{t} {lines[t][idx[t]]}")
+            idx[t] += 1
+            remaining -= 1
+        ops += ["ENDPAR", "SNAP"]
+        # sequential interlude: most of the kept results go, a collection, the terminal audit
+        rng.shuffle(kept)
+        for x in kept[8:]:
+            ops.append(f"DROP h{x}")
+        ops += ["GC", "SNAP"]
+    ops += ["DROPALL", "GC", "SNAP"]
+    hdr = ddgen.header(cid, "mtbdd", cap=1 << 16, cache=rng.choice([256, 1024, 1024, 4096]), threads=1,
+                       extra=f"seed={rng.randrange(1 << 30)} yield={rng.choice([0, 20, 100])} gcyield={rng.choice([0, 2, 5, 10])}")
+    return (hdr, ops)
+
+
+T3_BIN = ["T3AND", "T3OR", "T3XOR", "T3EQUIV", "T3NAND", "T3NOR", "T3IMP", "T3IMPS"]
+
+
+def gen_tdd(cid, rng, thorough):
+    """C07m: TDD (ternary nodes, three static terminals): blocks in which 2-4 threads recompute a few three-valued
+    operations over a shared pool (most results dropped at once, the last ones kept) while one thread collects;
+    the kept results are compared with the extracted three-valued tables (dd_main.ml, prop C11) at the snapshot."""
+    nv = rng.randrange(2, 5)
+    ops = [f"VARS {nv}"]
+    nxt = 0
+    for v in range(nv):
+        ops.append(f"T3VAR h{nxt} {v}"); nxt += 1
+    for c in "fut":
+        ops.append(f"T3CONST h{nxt} {c}"); nxt += 1
+    pool = list(range(nxt))
+
+    def rand_op(d, src):
+        r = rng.random()
+        if r < 0.12:
+            return f"T3NOT h{d} h{rng.choice(src)}"
+        if r < 0.3:
+            return f"T3ITE h{d} h{rng.choice(src)} h{rng.choice(src)} h{rng.choice(src)}"
+        return f"{rng.choice(T3_BIN)} h{d} h{rng.choice(src)} h{rng.choice(src)}"
+
+    for _ in range(rng.randrange(6, 12)):
+        ops.append(rand_op(nxt, pool)); pool.append(nxt); nxt += 1
+    live = pool[nv + 3:] + pool[:nv]
+    base = 1000
+    for blk in range(rng.randrange(2, 4)):
+        ops.append("SNAP")
+        k = rng.randrange(3, 5)
+        lines = [[] for _ in range(k)]
+        keys = [rand_op(0, live).split(" ", 2) for _ in range(rng.randrange(3, 7))]     # [op, "h0", operands]
+        kept = []
+        for t in range(k - 1):
+            rounds = rng.randrange(12, 60 if thorough else 36)
+            for rd in range(rounds):
+                o, _, rest = rng.choice(keys)
+                d = base; base += 1
+                lines[t].append(f"{o} h{d} {rest}")
+                if rd < rounds - 3:
+                    lines[t].append(f"DROP h{d}")
+                else:
+                    kept.append(d)
+        lines[k - 1] = ["PGC"] * rng.randrange(10, 40)
+        ops.append(f"PAR {k}")
+        idx = [0] * k
+        remaining = sum(len(l) for l in lines)
+        while remaining:
+            t = rng.choice([i for i in range(k) if idx[i] < len(lines[i])])
+            ops.append(f"T{t} {lines[t][idx[t]]}")
+            idx[t] += 1
+            remaining -= 1
+        ops += ["ENDPAR", "SNAP"]
+        if nv <= 3:
+            for x in kept[:3]:
+                ops.append(f"T3EVAL h{x}")
+        live += kept
+        rng.shuffle(live)
+        while len(live) > 12:
+            ops.append(f"DROP h{live.pop()}")
+        if rng.random() < 0.7:
+            ops.append("GC")
+    ops += ["SNAP", "DROPALL", "GC", "SNAP"]
+    hdr = ddgen.header(cid, "tdd", cap=1 << 16, cache=rng.choice([4, 64, 4096]), threads=rng.choice([1, 2, 4]),
+                       extra=f"seed={rng.randrange(1 << 30)} yield={rng.choice([0, 50, 200])}")
+    return (hdr, ops)
+
+
 def gen_cases(ctx):
     rng = random.Random(ctx.seed * 7919 + 7)
     thorough = ctx.tier == "thorough"
@@ -314,6 +490,11 @@ def gen_cases(ctx):
     for kind in ("bdd", "bcdd", "zbdd"):
         for _ in range(48 if thorough else 12):
             cases.append(gen_gcstorm(f"g{cid}", kind, rng, thorough)); cid += 1
+    # C07m: MTBDD (dynamic, reference-counted terminals); index-based manager only
+    for _ in range(200 if thorough else 40):
+        cases.append(gen_mtbdd(f"m{cid}", rng, thorough)); cid += 1
+    for _ in range(120 if thorough else 24):
+        cases.append(gen_tdd(f"d{cid}", rng, thorough)); cid += 1
     return cases
 
 
@@ -322,7 +503,7 @@ def run_both(ctx, binp, drv_dd, drv_tr, cases, tag="", stat_prefix=""):
     from concurrent.futures import ThreadPoolExecutor
     nsh = max(1, min(8, len(cases)))     # 8 shards: every case runs several threads itself
     shards = [cases[i::nsh] for i in range(nsh)]
-    props = ["--props", "C01,C02,C03,C04,C05,C09,C12"]
+    props = ["--props", "C01,C02,C03,C04,C05,C09,C12,C10,C11"]   # C10 / C11: the sequential specification of the MTBDD / TDD operations (C07m)
 
     def one(k):
         f = os.path.join(ctx.workdir, f"cases{tag}-{k}.txt")
@@ -389,6 +570,12 @@ def run(ctx):
             # (only if parallel blocks ran to their end: a build that crashes in every block is a verdict, reported below)
             if int(ctx.stats.get(pre + st, 0)) == 0 and int(ctx.stats.get(pre + "op_ENDPAR", 0)) > 0:
                 raise vf.CheckFailure(f"the {which}-based manager build logged no {st[6:]} events: the cfg(oxidd_verif) hooks of /repo (hooks.json) are missing or inactive")
+    # C07m: the MTBDD family is vacuous if no terminal table was audited after a block / no result was compared
+    if any(h.startswith("m") for h, _ in cases) and not any(c.startswith("m") for c, _ in res["bad_tr"] + res["bad_dd"]):
+        for st, what in (("trace_chk_C07_terminal_table_after_block", "no terminal table of an MTBDD case was audited after a parallel block"),
+                         ("chk_C10", "no result of an MTBDD operation was compared with the sequential specification")):
+            if int(ctx.stats.get(st, 0)) == 0:
+                raise vf.CheckFailure(what + " (drivers out of date?)")
     # failures caused by the operating system refusing threads / memory are not verdicts: re-run those cases
     for attempt in range(3):
         rid = {cid for cid, m in res["bad_tr"] + res["bad_dd"] if vf.RESOURCE_RE.search(m)}
@@ -440,7 +627,7 @@ def run(ctx):
     ctx.stats["distinct_nontrivial"] = len({(h.split(" ", 1)[1], tuple(ops)) for h, ops in cases if any(o.startswith("PAR") for o in ops)})
     vf.write_evidence(
         ctx, "proof",
-        rule="per kind (bdd, bcdd, zbdd): random histories with 2-4 parallel blocks, each executed by 2-4 OS threads (plus 1/2/4 pool workers) on one manager: apply, not, ite, quantification, clone, drop (also on another thread), node_count and collections under the shared lock; several threads compute the same operation on the same operands; churn blocks (a small set of operations recomputed and dropped over and over while one thread collects continuously); hammer cases (one long churn block, 120-260 rounds per thread against 80-200 collections, on an apply cache of 1 or 2 buckets); gcstorm cases (3 threads recompute a few operations 200-300 times each on a cache of 1 or 2 buckets while the fourth thread runs up to 3000 collections in a row for as long as they work); seeded yield/spin injection (0/5/20/50 percent) at the hook sites; sequential interludes with drops and gc. All cases run on the index-based manager build; every third history and every second hammer / gcstorm / stress case runs a second time (ids ptr-*) on the pointer-based manager build (--no-default-features --features cfg-pointer: node ids are addresses) with the same two replays and audits. non-trivial = case with at least one parallel block; distinct = distinct (header, op list), counted once per script (not per manager)",
+        rule="per kind (bdd, bcdd, zbdd): random histories with 2-4 parallel blocks, each executed by 2-4 OS threads (plus 1/2/4 pool workers) on one manager: apply, not, ite, quantification, clone, drop (also on another thread), node_count and collections under the shared lock; several threads compute the same operation on the same operands; churn blocks (a small set of operations recomputed and dropped over and over while one thread collects continuously); hammer cases (one long churn block, 120-260 rounds per thread against 80-200 collections, on an apply cache of 1 or 2 buckets); gcstorm cases (3 threads recompute a few operations 200-300 times each on a cache of 1 or 2 buckets while the fourth thread runs up to 3000 collections in a row for as long as they work); seeded yield/spin injection (0/5/20/50 percent) at the hook sites; sequential interludes with drops and gc. All cases run on the index-based manager build; every third history and every second hammer / gcstorm / stress case runs a second time (ids ptr-*) on the pointer-based manager build (--no-default-features --features cfg-pointer: node ids are addresses) with the same two replays and audits. C07m: 40 (thorough 200) MTBDD<I64> cases on the index-based manager (2-3 blocks, 3-4 threads, 150-320 rounds per thread of constant-result ADD/SUB, operations with short-lived constant operands, fresh constants, ITE/RESTRICT/MIN/MAX/MUL/VAR, one collecting thread, apply cache of 256/1024/4096 buckets, collector preempted inside pre_gc/post_gc with 0/2/5/10 permille per bucket) and 24 (thorough 120) TDD cases (churn blocks of three-valued operations, every second one also on the pointer-based manager). non-trivial = case with at least one parallel block; distinct = distinct (header, op list), counted once per script (not per manager)",
         checker_cmd="make -C coq Props/C07.vo (coqc 8.16.1) + Print Assumptions audit; ./check C07",
         extra_cov={"cases_ok": res["ok"], "cases_ok_index_manager": res_index_ok, "cases_ok_pointer_manager": res_p["ok"],
                    "cases_bad_trace_replay": len(res["bad_tr"]), "cases_bad_result_audit": len(res["bad_dd"]),
@@ -457,11 +644,19 @@ def run(ctx):
                    "logged_cache_hits_replayed": int(ctx.stats.get("trace_ev_cache_hit", 0)),
                    "logged_collections_with_cache_protocol_replayed": int(ctx.stats.get("trace_ev_cache_sweeps", 0)),
                    "logged_bucket_locks_by_pre_gc_replayed": int(ctx.stats.get("trace_ev_cache_buckets_locked", 0)),
+                   "mtbdd_cases": sum(1 for h, _ in cases if h.startswith("m")),
+                   "tdd_cases": sum(1 for h, _ in cases + pcases if h.startswith(("d", PTR_PREFIX + "d"))),
+                   "mtbdd_terminal_tables_audited_after_blocks": int(ctx.stats.get("trace_chk_C07_terminal_table_after_block", 0)),
+                   "mtbdd_terminal_tables_audited": int(ctx.stats.get("trace_chk_C07_terminal_table", 0)),
+                   "mtbdd_terminals_audited": int(ctx.stats.get("trace_terminals_audited", 0)),
+                   "mtbdd_results_compared_with_sequential_spec": int(ctx.stats.get("chk_C10", 0)),
+                   "tdd_results_compared_with_sequential_spec": int(ctx.stats.get("chk_C11", 0)) + int(ctx.stats.get("ptr_chk_C11", 0)),
                    "tier": ctx.tier},
         assumptions=[
             "atomicity of the hooked regions of /repo (mutexes, the RwLock, atomics with Release/Acquire, rayon) is assumed; the model's actions are atomic by definition",
             "the explored schedules are those produced by the OS scheduler and the seeded perturbation at the hook sites; not an exhaustive enumeration",
             "hooks exist in the index-based manager, the pointer-based manager and the direct-mapped apply cache only (hooks.json: three add-only commits under cfg(oxidd_verif))",
+            "the dynamic terminal manager (MTBDD) has no hooks: its protocol (terminals collected only between pre_gc and post_gc) is proved on the model coq/Mgr/ConcTerm.v and tied to the code by end-state audits only",
         ])
 
 
